@@ -172,4 +172,19 @@ def Spec.run (s : Spec) : List Op → Spec × List Res
     let (s'', rs) := s'.run ops
     (s'', r :: rs)
 
+/-- The specification state a cache represents. -/
+def Cache.toSpec (c : Cache) : Spec :=
+  { cap := c.maxEntries, items := c.abs, evicted := c.evicted }
+
+/-- Well-formedness of the pointer structure: the list has no element twice,
+every linked element is allocated, the index maps exactly the keys of the
+linked elements to those elements, and the capacity is respected (a negative
+`maxEntries` keeps the cache empty). -/
+structure Cache.WF (c : Cache) : Prop where
+  nodup : c.order.Nodup
+  alloc : ∀ id ∈ c.order, id < c.heap.length
+  index : ∀ k id, mapGet c.index k = some id ↔ (id ∈ c.order ∧ (c.deref id).key = k)
+  capPos : c.maxEntries > 0 → (c.order.length : Int) ≤ c.maxEntries
+  capNeg : c.maxEntries < 0 → c.order = []
+
 end Mutagen.Model.LRU
